@@ -86,6 +86,18 @@ pub fn c17(ctx: &Ctx) -> Report {
         let a = crate::p_midi::Alphabet { notes: vec![60], vels: vec![100], k: 40, modes: false, polls: false, ccs: vec![], bends: vec![], foreign: false, edge_note: Some(61) };
         explore(crate::p_midi::MidiM::new(0, a), &ExploreCfg { max_depth: None, state_cap: 20_000_000, threads: ctx.threads, label: "midi: up to 40 outstanding note-ons (beyond the 32 the receiver remembers)".into() }, &mut rep, P);
     }
+    // MIDI: sequences of controller messages with special meaning (data entry, increment / decrement, (N)RPN
+    // select, channel mode) and then a few ordinary messages: no panic, no overflow
+    {
+        let fam: [u8; 12] = [6, 38, 96, 97, 98, 99, 100, 101, 121, 123, 1, 64];
+        let ops: Vec<(u8, u8)> = fam.iter().flat_map(|c| [(*c, 0u8), (*c, 127)]).collect();
+        let probes = [crate::p_midi::MOp::Bend(0), crate::p_midi::MOp::Bend(16383), crate::p_midi::MOp::On(60, 100)];
+        crate::p_midi::cc_sequences(ctx, &mut rep, 0, &ops, if thorough { 6 } else { 5 }, &probes, P, "special controller numbers x {0,127}, then probes (panic check)");
+        let all: Vec<(u8, u8)> = (0..128u8).flat_map(|c| [(c, 0u8), (c, 127)]).collect();
+        crate::p_midi::cc_sequences(ctx, &mut rep, 5, &all, if thorough { 3 } else { 2 }, &probes, P, "all controller numbers x {0,127}, then probes (panic check)");
+    }
+    // LFO: every state set_phase can create must be readable
+    crate::p_lfo::set_phase_sweep(ctx, &mut rep, if thorough { 4 } else { 64 }, P);
     // LFO
     for fs in rates {
         let freqs = vec![0.0, f32::from_bits(1), fs / 16777216.0, fs / 2.0, f32::from_bits(fs.to_bits() - 1), fs];
